@@ -199,6 +199,9 @@ func (p *blockPlan) v1SpendSpecial() bool {
 		txn := types.Transaction{SiacoinInputs: []types.SiacoinInput{{ParentID: e.ID, UnlockConditions: o.uc}}, SiacoinOutputs: []types.SiacoinOutput{{Value: e.SiacoinOutput.Value, Address: c.addr1(0)}}}
 		if o.key >= 0 {
 			c.signV1(&txn, map[types.Hash256]int{types.Hash256(e.ID): o.key}, false)
+			c.r.count("gen-spend-timelocked")
+		} else {
+			c.r.count("gen-spend-anyone")
 		}
 		p.txns = append(p.txns, txn)
 		return true
@@ -805,6 +808,9 @@ func (c *lchain) honestBlock() (types.Block, consensus.V1BlockSupplement) {
 	v1ok := c.child() < c.n.HardforkV2.RequireHeight
 	v2ok := c.child() >= c.n.HardforkV2.AllowHeight
 	n := c.r.rng.IntN(5)
+	if v1ok && c.r.rng.IntN(2) == 0 {
+		p.v1SpendSpecial()
+	}
 	for i := 0; i < n; i++ {
 		if v1ok && (!v2ok || c.r.rng.IntN(2) == 0) {
 			switch c.r.rng.IntN(9) {
